@@ -192,10 +192,16 @@ func fieldDisciplineObl(w *World, u *Unit, sp *ssa.Package, fd FieldDiscipline) 
 				idx := -1
 				switch x := in.(type) {
 				case *ssa.FieldAddr:
+					if fd.WriteOnly && onlyLoaded(x) {
+						continue
+					}
 					named = x.X.Type().Underlying().(*types.Pointer).Elem()
 					st, _ = named.Underlying().(*types.Struct)
 					idx = x.Field
 				case *ssa.Field:
+					if fd.WriteOnly {
+						continue
+					}
 					named = x.X.Type()
 					st, _ = named.Underlying().(*types.Struct)
 					idx = x.Field
@@ -231,13 +237,37 @@ func fieldDisciplineObl(w *World, u *Unit, sp *ssa.Package, fd FieldDiscipline) 
 	}
 	sort.Strings(offenders)
 	goal := "true"
-	clause := fmt.Sprintf("field %s.%s is only touched by %s", fd.Struct, fd.Field, strings.Join(fd.Allowed, ", "))
+	verb := "touched"
+	if fd.WriteOnly {
+		verb = "written (or its address taken)"
+	}
+	clause := fmt.Sprintf("field %s.%s is only %s by %s", fd.Struct, fd.Field, verb, strings.Join(fd.Allowed, ", "))
 	if len(offenders) > 0 {
 		goal = "false"
 		clause += "; offenders: " + strings.Join(offenders, ", ")
 	}
 	g := &gen{w: w, declared: map[string]bool{}}
 	return &Obl{Name: fmt.Sprintf("%s#field.%s.%s", u.PkgName, fd.Struct, fd.Field), Func: u.PkgName, Clause: clause, Goal: goal, G: g, Kind: "discipline", Tags: fd.Tags}
+}
+
+// onlyLoaded: the field address is used for loads only
+func onlyLoaded(x *ssa.FieldAddr) bool {
+	refs := x.Referrers()
+	if refs == nil {
+		return false
+	}
+	for _, r := range *refs {
+		switch u := r.(type) {
+		case *ssa.UnOp:
+			if u.Op != token.MUL {
+				return false
+			}
+		case *ssa.DebugRef:
+		default:
+			return false
+		}
+	}
+	return true
 }
 
 // reachDisciplineObl: breadth-first search over the static call graph of every function that has a
